@@ -82,20 +82,18 @@ impl XYZFile {
         let mut items = line.split_whitespace();
 
         let atomic_number = AtomicNumber::from_option_string(items.next());
-
-        match atomic_number {
-            Ok(a) => self.atomic_numbers.push(a),
-            Err(..) => return Err("Failed to parse the atomic symbol"),
-        }
-
         let coord = Point::from_option_strings(items.next(), items.next(), items.next());
 
-        match coord {
-            Ok(c) => self.coordinates.push(c),
-            Err(..) => return Err("Failed to create a coordinate"),
+        // Only store the atom once both the symbol and the coordinate have parsed, so the two lists stay aligned
+        match (atomic_number, coord) {
+            (Ok(a), Ok(c)) => {
+                self.atomic_numbers.push(a);
+                self.coordinates.push(c);
+                Ok(())
+            }
+            (Err(..), _) => Err("Failed to parse the atomic symbol"),
+            (_, Err(..)) => Err("Failed to create a coordinate"),
         }
-
-        Ok(())
     }
 }
 
